@@ -8,6 +8,7 @@ git -C $R apply "$d/patch.diff" || { echo "PATCH DOES NOT APPLY"; exit 2; }
 for c in "$@"; do
   all=$(cd $V && VERIF_REPO=$R ./check $c --tier quick 2>&1)
   if echo "$all" | grep -q "^Traceback"; then echo "[$c] THE CHECK ITSELF CRASHED"; echo "$all" | tail -3; continue; fi
+  if echo "$all" | grep -qE "what: (source gate|check infrastructure error)"; then echo "[$c] INVALID: the machinery is broken in this copy, nothing it reports counts"; echo "$all" | grep "what:" | head -2 | cut -c1-300; continue; fi
   out=$(echo "$all" | grep -E "VIOLATION|what:" | head -4)
   if echo "$out" | grep -q VIOLATION; then echo "[$c] DETECTED"; echo "$out" | cut -c1-260 | head -3; else echo "[$c] missed"; fi
 done
